@@ -679,6 +679,10 @@ func (x *Exec) lookup(st *State, fr *Frame, v *ssa.Lookup, pos string) Val {
 		return e
 	}
 	val, has := x.mapLookup(st, m, k.S)
+	if x.mode == ModeInt {
+		// a map that holds a key is not empty
+		st.assume(implies(has, app("<=", "1", x.mapLen(st, m))))
+	}
 	if v.CommaOk {
 		return Val{T: v.Type(), K: KTuple, Fs: []Val{val, {T: types.Typ[types.Bool], K: KScalar, S: has}}}
 	}
